@@ -424,4 +424,9 @@ M('C17', 'outlier-gets-dim-plus-one', RA, "        realloc.update({pair[0]: dim}
 M('C17', 'rank-stored-under-constant-key', RA, "        realloc.update({pair[0]: rd(pair[1] * unit_rsc)})", "        realloc.update({'layer': rd(pair[1] * unit_rsc)})")
 TW('C17', 'twin-proportional-common-tail', RA, "      if is_outlier(pair[1], total_score, group_resource, dim - 1):\n        realloc.update({pair[0]: dim})\n        group_resource -= (dim - 1)\n        total_score -= pair[1]\n      else:\n        unit_rsc = group_resource / total_score if total_score > 0 else 0.0\n        realloc.update({pair[0]: rd(pair[1] * unit_rsc)})\n        group_resource -= (rd(pair[1] * unit_rsc) - 1)\n        total_score -= pair[1]\n",
    "      name, sc = pair\n      if is_outlier(sc, total_score, group_resource, dim - 1):\n        got = dim\n      else:\n        per_unit = group_resource / total_score if 0 < total_score else 0.0\n        got = rd(sc * per_unit)\n      realloc[name] = got\n      group_resource = group_resource - got + 1\n      total_score = total_score - sc\n")
+M('C17', 'rank-assert-strict', RA, "      assert realloc[key] <= dim, (key, realloc[key], dim)", "      assert realloc[key] < dim, (key, realloc[key], dim)")
+M('C17', 'budget-assert-strict', RA, "    assert allocated <= group_resource, (group_resource, allocated)", "    assert allocated < group_resource, (group_resource, allocated)")
+M('C17', 'group-size-assert-strict', RA, "    assert group_resource >= group_size, (group_resource, group_size)", "    assert group_resource > group_size, (group_resource, group_size)")
+M('C17', 'outlier-test-uses-dim', RA, "      if is_outlier(pair[1], total_score, group_resource, dim - 1):", "      if is_outlier(pair[1], total_score, group_resource, dim):")
+M('C17', 'share-not-proportional', RA, "        unit_rsc = group_resource / total_score if total_score > 0 else 0.0\n        realloc.update", "        unit_rsc = group_resource * total_score if total_score > 0 else 0.0\n        realloc.update")
 TW('C17', 'twin-topup-reordered-test', RA, _TOPUP, "        if dim > realloc[key]:\n          extra -= 1\n          realloc[key] += 1\n        if extra <= 0:\n          break")
